@@ -514,23 +514,24 @@ func refUnpack(init map[string]SnapEntry, dstRel string, es []EntrySpec) (map[st
 func coqNode(n *TNode) string {
 	switch n.Kind {
 	case "file":
-		return fmt.Sprintf("(File %s %d%%N %s)", coqStr(n.Data), n.Perm, coqMtime(n.Mtime))
+		return fmt.Sprintf("(File %s %d%%N %s)", coqStr(n.Data), n.Perm, coqMtime(n.Mtime, n.MtimeN))
 	case "dir":
 		var ks []string
 		for _, k := range sortedKids(n) {
 			ks = append(ks, "("+coqStr(k)+", "+coqNode(n.Kids[k])+")")
 		}
-		return fmt.Sprintf("(Dir %d%%N %s %s)", n.Perm, coqMtime(n.Mtime), coqList(ks))
+		return fmt.Sprintf("(Dir %d%%N %s %s)", n.Perm, coqMtime(n.Mtime, n.MtimeN), coqList(ks))
 	case "link":
 		return "(Link " + coqStr(n.Target) + ")"
 	}
 	return "(Special 1%N)"
 }
-func coqMtime(m int64) string {
-	if m == 0 {
+// model times are nanoseconds since the epoch; (0, 0) = not set / kernel-set
+func coqMtime(sec, nsec int64) string {
+	if sec == 0 && nsec == 0 {
 		return "None"
 	}
-	return fmt.Sprintf("(Some (%d)%%Z)", m)
+	return fmt.Sprintf("(Some (%d)%%Z)", sec*1000000000+nsec)
 }
 
 // snapToTree rebuilds a TNode tree from a snapshot; mtimes of nodes whose mtime
@@ -544,7 +545,7 @@ func snapToTree(s map[string]SnapEntry) *TNode {
 	sort.Strings(keys)
 	for _, k := range keys {
 		e := s[k]
-		n := &TNode{Kind: e.Kind, Perm: e.Perm, Mtime: e.MtimeS, Target: e.Target, Data: e.Data}
+		n := &TNode{Kind: e.Kind, Perm: e.Perm, Mtime: e.MtimeS, MtimeN: e.MtimeN, Target: e.Target, Data: e.Data}
 		if e.Kind == "special" {
 			n.Kind = "fifo"
 		}
